@@ -19,12 +19,18 @@ from common import hx
 # property whose statements rest on Model_minerals builds these files as obligations, so that an
 # edit of the glue source breaks a proof (or the translator fails closed), not only a differential run.
 GLUE_TIE_FILES = ["gen/Gen_minerals.v", "Inst_core.v", "Inst_minerals.v", "Inst_minerals_rhs1.v",
-                  "Inst_minerals_rhs2.v", "Inst_minerals_rhs3.v"]
+                  "Inst_minerals_rhs2.v", "Inst_minerals_rhs3.v",
+                  # round 5: the driver around the integrator (LSODA's constructor arguments, solver loop and its
+                  # failure branch, get_regime, update_all, __post_init__) and the theorems about its model
+                  "Inst_minerals_drv.v", "Inst_minerals_rhs_gr.v", "Proofs_driver.v"]
 GLUE_TIE_GEN = ("core", "minerals")
 GLUE_TIE_TRUSTED = (
     "glue tie T: translator/specs_minerals.py (GlueProxy/GArr array semantics: clip, boolean-mask stores, "
     "non-raising array division, 3x3 matmul; LSODA stand-ins that capture eval_rhs / replay one step; "
-    "oracle stubs for eigvalsh and polar_decompose; apply_gbs traced on copies with write-back at the call site)")
+    "oracle stubs for eigvalsh and polar_decompose; apply_gbs traced on copies with write-back at the call site; "
+    "round 5: LSODA stand-ins that record the constructor call / take m steps with independent symbolic state vectors / "
+    "fail at a chosen step, a Rotation.random stand-in (oracle) for __post_init__, the real update_all on stand-in solvers; "
+    "translator/srcguard.py: fail closed on unlisted callee kernels and on new integer literals > 3 in traced functions)")
 
 
 class Trace:
@@ -35,6 +41,8 @@ class Trace:
         self.rhs_tail = []       # last evaluations of the update
         self.step_ys = []        # solver.y after each step (copy, before the GBS write-back)
         self.y_start = None
+        self.ctor = None
+        self.start = None
         self.error = None
         self.F_returned = None
 
@@ -57,6 +65,7 @@ class Recorder:
                 tr = rec.current
                 if tr is not None:
                     tr.y_start = np.array(y0, dtype=float).copy()
+                    tr.ctor = dict(t0=t0, t_bound=t_bound, kw=dict(kw))     # what LSODA was constructed with
 
                 def fun2(t, y):
                     out = fun(t, y)
@@ -92,6 +101,12 @@ class Recorder:
         """Run one update under recording. Returns (trace, F_new or None)."""
         tr = Trace()
         self.current = tr
+        try:        # what the update starts from (for validate_problems)
+            tr.start = dict(F=np.array(F, dtype=float).copy(), o=np.array(mineral.orientations[-1], dtype=float).copy(),
+                            f=np.array(mineral.fractions[-1], dtype=float).copy(),
+                            t0=float(pathline[0]), t1=float(pathline[1]), user_kw=sorted(k for k in kw if k != "get_regime"))
+        except Exception:  # noqa: BLE001  (malformed arguments of a negative test)
+            tr.start = None
         try:
             Fn = mineral.update_orientations(params, F, get_L, pathline, **kw)
             tr.F_returned = np.array(Fn, dtype=float).copy()
@@ -107,8 +122,95 @@ class Recorder:
 # --------------------------------------------------------------------------
 # scenarios
 # --------------------------------------------------------------------------
-def make_L(rng, kind, scale=1.0):
+NICE_PERIODS = (0.25, 0.375, 0.5, 0.625, 0.75, 1.0)     # dimensionless update lengths with few mantissa bits: the partition
+#                                                         times k T, their midpoints and t / T are exact in binary64 at rate 1
+COINCIDENT_FLOWS = ["cos_period", "cos_pulsed", "pulse", "zones", "loop"]
+
+
+def _zone(w):
+    """two smooth deformation zones inside (0, 1/2) and (1/2, 1): exactly 0 at w = 0, 1/2, 1; maximum ~0.93"""
+    s = w * (w - 0.5) * (w - 1.0)
+    return 400.0 * s * s
+
+
+def make_coincident(rng, kind, scale, T):
+    """Velocity gradients that take EXACTLY the same value at the start, the midpoint and the end of every update of
+    (dimensionless) length T but vary in between -- what any 'is the flow steady?' test on a few samples cannot tell
+    from a constant (seeded change C06d).  u = t * scale / T counts updates.
+      cos_period  L0 cos(4 pi m u): whole periods per half update, net strain zero (sample value L0)
+      cos_pulsed  L1 cos(4 pi m u) + L0^T (1 - cos(4 pi m u)): non-commuting in time (sample value L1)
+      pulse       two deformation pulses strictly inside each half of the update (sample value 0)
+      zones       the same as a function of POSITION: two shear zones crossed along a straight pathline, rigid material
+                  at the three sampled positions (sample value 0)
+      loop        position-dependent L on a closed pathline that returns to the same point at the three sample times
+    At rate 1 with T in NICE_PERIODS the coincidence is exact in binary64 (cos(fl(2 pi m)) = 1.0; the polynomial zone
+    profile is exactly 0 at w = 0, 1/2, 1); at other rates fl(fl(T / k) k) may miss T by an ulp, so the coincidence of
+    pulse / zones (not of the cosine families) can hold in one of two runs that differ only by the rate."""
+    L0 = G.velocity_gradient(rng, ("simple", "general", "trace")[int(rng.integers(3))])
+    L1 = G.velocity_gradient(rng, ("general", "pure", "simple")[int(rng.integers(3))])
+    m = int(rng.integers(1, 3))
+    desc = dict(kind=kind, period=T, harmonics=m, coincident=True)
+
+    def u(t):
+        return (t * scale) / T
+    if kind == "cos_period":
+        return (lambda t, x: scale * L0 * np.cos(4 * np.pi * m * u(t))), desc
+    if kind == "cos_pulsed":
+        return (lambda t, x: scale * (L1 * np.cos(4 * np.pi * m * u(t)) + L0.T * (1 - np.cos(4 * np.pi * m * u(t))))), desc
+    if kind == "pulse":
+        return (lambda t, x: scale * L1 * _zone(u(t) - np.floor(u(t)))), desc
+    if kind == "zones":
+        a = np.zeros(3)
+        a[int(rng.integers(3))] = 1.0
+        desc["get_x"] = lambda t: a * u(t)          # one unit of a coordinate per update
+
+        def get_zones(t, x):
+            xi = float(np.dot(a, x))
+            return scale * L1 * _zone(xi - np.floor(xi))
+        return get_zones, desc
+    if kind == "loop":
+        r, c0 = float(rng.uniform(0.3, 1.0)), float(rng.normal())
+        # the offset 20 r absorbs r sin(fl(2 pi m)) ~ -2.4e-16 m r: the three sampled positions are bit-identical
+        desc["get_x"] = lambda t: np.array([c0 + r * np.cos(4 * np.pi * m * u(t)), 20 * r + r * np.sin(4 * np.pi * m * u(t)), 0.0])
+        return (lambda t, x: scale * (L0 + L1 * float(np.tanh(x[0] - c0)) + L0.T * float(np.tanh(x[1] - 20 * r)))), desc
+    raise ValueError(kind)
+
+
+PLANAR_FLOWS = ["planar_xz", "uniaxial_z", "planar", "uniaxial"]
+
+
+def planar_gradient(rng, kind):
+    """Velocity gradient EXACTLY confined to a coordinate plane (one row and one column exactly zero, the usual 2-D set-up) but
+    with a NON-ZERO in-plane trace (compaction / dilation, uniaxial shortening): closed forms for 2-D incompressible flow
+    (principal strain rates +-sqrt(Dxx^2 + Dxz^2), 0) are wrong here, and only here.  planar_xz / uniaxial_z: the x-z plane
+    (PyDRex's own 2-D convention); planar / uniaxial: a random coordinate plane and in-plane axis.  Unit strain-rate scale."""
+    j = 1 if kind in ("planar_xz", "uniaxial_z") else int(rng.integers(3))      # out-of-plane axis
+    keep = [i for i in range(3) if i != j]
+    L = np.zeros((3, 3))
+    if kind.startswith("uniaxial"):
+        a = 2 if kind == "uniaxial_z" else keep[int(rng.integers(2))]
+        L[a, a] = -1.0 if rng.random() < 0.7 else 1.0
+    else:
+        B = rng.normal(size=(2, 2))
+        sgn = 1.0 if rng.random() < 0.5 else -1.0
+        if rng.random() < 0.6:      # both in-plane normal strain rates of the same sign (compaction / dilation with shear)
+            B[0, 0], B[1, 1] = sgn * float(rng.uniform(0.3, 1.5)), sgn * float(rng.uniform(0.3, 1.5))
+        else:                       # generic, trace clearly non-zero
+            B += np.eye(2) * float(rng.uniform(0.4, 1.2)) * sgn
+        for a in range(2):
+            for b in range(2):
+                L[keep[a], keep[b]] = B[a, b]
+    s = float(np.abs(np.linalg.eigvalsh((L + L.T) / 2)).max())
+    return L / s
+
+
+def make_L(rng, kind, scale=1.0, period=None):
     """returns (get_L(t, x), description).  Families of the quantifier."""
+    if kind in COINCIDENT_FLOWS:
+        return make_coincident(rng, kind, scale, float(period))
+    if kind in PLANAR_FLOWS:
+        L0 = planar_gradient(rng, kind) * scale
+        return (lambda t, x, L0=L0: L0.copy()), dict(kind=kind, L0=[hx(v) for v in L0.reshape(-1)])
     if kind in ("simple", "pure", "axisym", "general", "trace"):
         L0 = G.velocity_gradient(rng, kind) * scale
         return (lambda t, x, L0=L0: L0.copy()), dict(kind=kind, L0=[hx(v) for v in L0.reshape(-1)])
@@ -193,6 +295,42 @@ def scenario(rng, regime=None, pair=None, n=None, lkind=None, tkind=None, nupd=N
                 params=params, seed=int(rng.integers(0, 2**31 - 1)))
 
 
+def coincident_scenarios(rng, tier="quick", regimes=(4, 6, 0, 7), kinds=None, reps=None, nmax=10):
+    """One history per flow family of COINCIDENT_FLOWS (x reps): the velocity gradient seen along the pathline coincides
+    exactly at the start, midpoint and end of EVERY update and varies in between; the update length is sc["period"]."""
+    kinds = list(kinds if kinds is not None else COINCIDENT_FLOWS)
+    reps = reps if reps is not None else (1 if tier == "quick" else 6)
+    out = []
+    for r in range(reps):
+        for i, kind in enumerate(kinds):
+            sc = scenario(rng, regime=int(regimes[(i + r) % len(regimes)]), n=int(rng.integers(2, nmax + 1)), lkind=kind,
+                          nupd=int(rng.integers(1, 4)))
+            sc["period"] = float(NICE_PERIODS[int(rng.integers(len(NICE_PERIODS)))])
+            out.append(sc)
+    return out
+
+
+BLOCK_N_QUICK = (63, 64, 65, 127, 128, 129, 255, 256, 257, 512, 1000, 1024)
+BLOCK_N_THOROUGH = BLOCK_N_QUICK + (192, 384, 511, 513, 640, 768, 896, 1023, 1025, 2000, 2047, 2048, 2049, 4096)
+
+
+def block_scenarios(rng, tier="quick", regimes=(4, 6), sizes=None, nupd=1):
+    """Histories whose grain count sits on a block boundary (powers of two and neighbours, multiples of
+    64 / 128 / 256 / 1000 / 1024): a size-dependent path of the rate kernel (seeded change C03d: block-wise
+    sum wrong for multiples of 128) is invisible at the 2..24 grains of the ordinary scenarios.  One update of
+    a 1024-grain aggregate costs ~0.1 s."""
+    sizes = sizes if sizes is not None else (BLOCK_N_QUICK if tier == "quick" else BLOCK_N_THOROUGH)
+    out = []
+    for i, n in enumerate(sizes):
+        sc = scenario(rng, regime=int(regimes[i % len(regimes)]), n=int(n), nupd=nupd,
+                      lkind=("simple", "general", "time", "pure")[i % 4], tkind=T_KINDS[i % len(T_KINDS)],
+                      strain=float(rng.uniform(0.1, 0.4)))
+        sc["params"]["gbm_mobility"] = float(rng.uniform(20, 200))     # the volume block must move
+        sc["block_size_family"] = True
+        out.append(sc)
+    return out
+
+
 def build(sc, assemblage=None, fractions=None):
     """Instantiate mineral, params dict, L callable and position callable of a scenario."""
     import pydrex
@@ -207,12 +345,14 @@ def build(sc, assemblage=None, fractions=None):
     params["phase_assemblage"] = tuple(assemblage)
     params["phase_fractions"] = tuple(fractions)
     rng_flow = np.random.default_rng(sc.get("flow_seed", sc["seed"] + 1))   # independent of the texture
-    get_L, desc = make_L(rng_flow, sc["lkind"], scale=sc.get("rate", 1.0))
+    get_L, desc = make_L(rng_flow, sc["lkind"], scale=sc.get("rate", 1.0), period=sc.get("period"))
     v = rng_flow.normal(size=3)
 
     def get_x(t, v=v, r=sc.get("rate", 1.0)):
         return v * t * r
 
+    if "get_x" in desc:          # flow families that come with their own pathline (zones, loop)
+        get_x = desc.pop("get_x")
     return m, params, get_L, get_x, desc
 
 
@@ -287,4 +427,116 @@ def snapshot_valid(O, f, n):
         fails.append(f"fractions sum to {f.sum()!r}")
     if np.abs(O).max() > 1:
         fails.append("orientation entry outside [-1, 1]")
+    return fails
+
+
+# --------------------------------------------------------------------------
+# tie H for the problem instance handed to LSODA (round 5): the extracted Model_minerals.lsoda_problem_of must
+# reproduce, bit for bit, the constructor call of every recorded update -- start vector, absolute tolerance
+# vector, relative tolerance, first step, t0, t_bound; no further keyword.  (The generated k_lsoda_args_n{1,2,3}
+# are tied to the same model by Inst_minerals_drv.lsoda_args_inst_*; this run covers every grain count.)
+# --------------------------------------------------------------------------
+def validate_problems(chk, hist, bad, user_kw=()):
+    sc = hist["sc"]
+    lines, meta = [], []
+    for u in hist["updates"]:
+        tr = u["trace"]
+        st = getattr(tr, "start", None)
+        if tr.ctor is None or st is None or st["user_kw"]:
+            continue            # LSODA never constructed / caller supplied its own solver options
+        n = int(st["f"].shape[0])
+        if st["o"].shape != (n, 3, 3) or st["F"].shape != (3, 3):
+            continue
+        fl = list(st["F"].reshape(-1)) + list(st["o"].reshape(-1)) + list(st["f"]) + [st["t0"], st["t1"]]
+        lines.append(common.model_line("problem", [n], fl))
+        meta.append((u, tr))
+    if not lines:
+        return
+    res = common.run_model(lines, "core")
+    for (u, tr), r in zip(meta, res):
+        kw = tr.ctor["kw"]
+        chk.cov["lsoda_problems_compared"] = chk.cov.get("lsoda_problems_compared", 0) + 1
+        extra = sorted(set(kw) - {"atol", "rtol", "first_step", "lband", "uband"} - set(user_kw))
+        if extra:
+            bad.append((sc, f"update {u.get('index')}: LSODA constructed with unmodelled keyword(s) {extra}"))
+        if r[0] != "OK":
+            bad.append((sc, f"update {u.get('index')}: problem model returned {r}"))
+            continue
+        try:
+            impl = [float(tr.ctor["t0"])] + list(np.asarray(tr.y_start, dtype=float)) + [float(tr.ctor["t_bound"])] \
+                + list(np.broadcast_to(np.asarray(kw["atol"], dtype=float), tr.y_start.shape)) \
+                + [float(kw["rtol"]), float(kw["first_step"])]
+        except Exception as e:  # noqa: BLE001
+            bad.append((sc, f"update {u.get('index')}: LSODA constructor arguments not of the modelled form: {e}"))
+            continue
+        n = int(tr.start["f"].shape[0])
+        if kw.get("lband") is not None or kw.get("uband") is not None:
+            if n <= 4632:
+                bad.append((sc, f"update {u.get('index')}: banded Jacobian requested for {n} grains"))
+        if impl != r[1]:
+            okc, idx = common.vec_close(impl, r[1], rtol=0.0, atol=0.0)
+            if okc:             # NaN entries compare unequal as Python floats but are the same value
+                continue
+            names = "t0 / y0 / t_bound / atol / rtol / first_step"
+            bad.append((sc, f"update {u.get('index')}: LSODA's constructor arguments ({names}) differ from the model at flat index "
+                            f"{idx}: {impl[idx] if idx is not None and idx >= 0 else len(impl)!r} vs "
+                            f"{r[1][idx] if idx is not None and idx >= 0 else len(r[1])!r}"))
+
+
+# --------------------------------------------------------------------------
+# the failure branch of the solver loop on the REAL code (round 5; the tie T for it is
+# Inst_minerals_drv.update_loop_inst_*): scipy's LSODA is wrapped so that its step number `fail_step` reports
+# failure (status "failed", a message) instead of integrating.  Required (C07 / C01): IterationError is raised,
+# the stored history is byte-identical to the one before the call, the caller's F is untouched, and the mineral
+# is as usable afterwards as a fresh one (the next, unforced update is bit-identical to a twin's).
+# --------------------------------------------------------------------------
+def failing_solver_probe(sc, fail_step):
+    import pydrex.minerals as pm
+    import pydrex.exceptions as perr
+    fails = []
+    m, params, get_L, get_x, _ = build(sc)
+    twin, params2, get_L2, get_x2, _ = build(sc)
+    F0 = np.eye(3) + 0.1 * np.arange(9.0).reshape(3, 3) / 9
+    F_keep = F0.copy()
+    before = [(o.tobytes(), f.tobytes()) for o, f in zip(m.orientations, m.fractions)]
+
+    class FailingLSODA(_LSODA):
+        nsteps = 0
+
+        def step(self):
+            self.nsteps += 1
+            if self.nsteps == fail_step:
+                self.status = "failed"
+                return "forced failure of solver step %d (harness stand-in)" % fail_step
+            return super().step()
+
+    orig = pm.LSODA
+    pm.LSODA = FailingLSODA
+    raised = None
+    try:
+        try:
+            m.update_orientations(params, F0, get_L, (0.0, 0.25, get_x))
+        except Exception as e:  # noqa: BLE001
+            raised = e
+    finally:
+        pm.LSODA = orig
+    if raised is None:
+        fails.append(f"a solver step that reports failure (step {fail_step}) did not make update_orientations raise")
+    elif not isinstance(raised, perr.IterationError):
+        fails.append(f"a failing solver step raised {type(raised).__name__} instead of IterationError")
+    after = [(o.tobytes(), f.tobytes()) for o, f in zip(m.orientations, m.fractions)]
+    if after != before:
+        fails.append(f"a failed update (solver step {fail_step}) altered the stored history "
+                     f"({len(before)} -> {len(after)} snapshots)")
+    if not np.array_equal(F0, F_keep):
+        fails.append("a failed update wrote into the caller's deformation gradient")
+    if after == before:
+        try:
+            Fa = m.update_orientations(params, F0, get_L, (0.0, 0.25, get_x))
+            Fb = twin.update_orientations(params2, F_keep.copy(), get_L2, (0.0, 0.25, get_x2))
+            if not (np.array_equal(Fa, Fb) and np.array_equal(m.orientations[-1], twin.orientations[-1])
+                    and np.array_equal(m.fractions[-1], twin.fractions[-1])):
+                fails.append("after a failed update the mineral does not behave like a fresh one")
+        except Exception as e:  # noqa: BLE001
+            fails.append(f"update after a failed update raised {type(e).__name__}: {e}")
     return fails
